@@ -273,6 +273,7 @@ PROPERTIES = {
         "level_note": "handlers are called in-process with a peer context (no TLS identity path); verification is synchronous so a panic is caught on the calling goroutine",
         "technique": "fault enumeration over structured wire messages with panic and state-invariance monitors",
         "rule": "C10: hostile wire input",
-        "parts": [part("C10.wire", target=("test", "server"), shards={"quick": 16, "thorough": 16}, floor=2000)],
+        "parts": [part("C10.wire", target=("test", "server"), shards={"quick": 16, "thorough": 16}, floor=2000),
+                  part("C10.fuzz", target=("test", "server"), shards={"quick": 16, "thorough": 16}, floor=1000)],
     },
 }
